@@ -127,7 +127,7 @@ pub fn check_header(c: &HeaderCase, dir: &std::path::Path) -> Verdict {
                     v.fail("header-python", format!("k={}: OligoComputer({}).get_header() differs from the canonical k-mers in rank order (len {} vs {}, first difference at {:?}; answer {})", c.k, c.k, h.len(), texts.len(), pos, crate::util::trunc(&r.to_string(), 200)));
                 }
             }
-            Err(e) => v.fail("python-worker", e),
+            Err(e) => crate::pyworker::record_error(&mut v, e),
         }
         return v;
     }
@@ -194,6 +194,7 @@ pub fn run(ctx: &mut Ctx) {
     let dir = ctx.workdir.clone();
     let hc: Vec<HeaderCase> = header_cases().into_iter().enumerate().filter(|(i, _)| i % ctx.nshards == ctx.shard).map(|(_, c)| c).collect();
     ctx.run_enum("headers", "library header k=1..=8; Python get_header() k=1..=8; CLI header k=3..=7 x {csv,tsv,spc} x {norm,counts}", hc.into_iter(), false, |c| check_header(c, &dir));
+    crate::pyworker::infra_inconclusive(ctx);
 }
 
 pub fn replay(leg: &str, case: &serde_json::Value) -> Option<Result<Verdict, String>> {
